@@ -164,3 +164,41 @@ Proof.
   cbv zeta in Hexts. fold message_end. rewrite Hexts. reflexivity.
 Qed.
 End ServerHello.
+
+(* ---------------- from the ServerHello to the decryptor, TLS 1.3 ---------------- *)
+Require Import C01P C01SessionP TlsRecords.
+Section Keys13.
+Variable C : Crypto.
+Variable tbl : list (Z * String.string).
+Variable parts : SuiteTypes.parts.
+Variable keylog : list secret.
+
+(* generate_keys for TLS 1.3: the suite resolves to an AEAD algorithm, the key log has lines for this client random, and the
+   derivation yields all eight values (C15_tls13: each is HKDF-Expand-Label of the last line with its label): the session gets the
+   decryptor of C01_fresh_decryptor -- both directions on their handshake keys, sequence numbers 0, application keys in store *)
+Theorem tls13_keys_installed s suite sr cs a kl k x xs chk chi shk shi cak cai sak sai :
+  split_cipher_suite tbl parts (from_be suite) = Some cs -> algo_of cs = Some a -> (a = AESGCM \/ a = AESCCM \/ a = ChaCha20Poly1305) ->
+  s_keylen cs = Some kl -> find_session_secrets keylog s = x :: xs -> dev_tls_13_keys C (x :: xs) kl (s_mac cs) = Ok k ->
+  client_hs_key k = Some chk -> client_hs_iv k = Some chi -> server_hs_key k = Some shk -> server_hs_iv k = Some shi ->
+  client_app_key k = Some cak -> client_app_iv k = Some cai -> server_app_key k = Some sak -> server_app_iv k = Some sai ->
+  exists d, generate_keys C tbl parts keylog s TLS13 suite sr = Ok (set_dec s (Some d)) /\ class13 a d /\ d_tag_length d = s_tag cs /\
+            cur_key d true = Some shk /\ cur_iv d true = Some shi /\ cur_seq d true = 0 /\
+            cur_key d false = Some chk /\ cur_iv d false = Some chi /\ cur_seq d false = 0 /\
+            switch_ready d true sak sai /\ switch_ready d false cak cai.
+Proof.
+  intros Hs Ha Haa Hkl Hf Hk H1 H2 H3 H4 H5 H6 H7 H8.
+  unfold generate_keys. rewrite Hs, Hf. unfold derive_session_keys. rewrite Hkl, Hk. cbn [rmap]. rewrite Ha.
+  match goal with |- context [new_decryptor (Some a) (K13 k) TLS13 ?ml (s_tag cs) ?bl ?ex ?cm] =>
+    destruct (fresh_decryptor a (s_tag cs) k ml bl ex cm chk chi shk shi cak cai sak sai Haa H1 H2 H3 H4 H5 H6 H7 H8) as (d & Hd & Hrest) end.
+  rewrite Hd. exists d. split; [reflexivity|exact Hrest].
+Qed.
+End Keys13.
+
+(* the premises about the suite hold for the TLS 1.3 suites of the table regenerated from the source *)
+Require SuiteTable.
+Example tls13_suites_resolve :
+  forallb (fun code => match split_cipher_suite SuiteTable.table SuiteTable.parts code with
+                       | Some cs => match algo_of cs, s_keylen cs with
+                                    | Some AESGCM, Some _ | Some AESCCM, Some _ | Some ChaCha20Poly1305, Some _ => true | _, _ => false end
+                       | None => false end) [0x1301; 0x1302; 0x1303; 0x1304; 0x1305] = true.
+Proof. vm_compute. reflexivity. Qed.
